@@ -58,7 +58,7 @@ std::string check_point(const Ctx& c, Chooser& ch, Stats* st, const std::vector<
     scribble_stack(0x00);
     double v0 = c.t.template ndsplineeval<Float>(x.data(), cen.data(), mask);
     scribble_stack(0xff);
-    double v1 = c.t.template ndsplineeval<Float>(x.data(), cen.data(), mask);
+    double v1 = (mask & 1) ? c.t.template get_evaluator<Float>().ndsplineeval(x.data(), cen.data(), mask) : c.t.template ndsplineeval<Float>(x.data(), cen.data(), mask);
     double tol = tol_for(c, eps, ref, nt, is_float);
     if (st) {
       if ((double)ref.m > 0) st->maxi(is_float ? "max_err_over_eps_mag_float" : "max_err_over_eps_mag_double", std::max(fabs(v0 - (double)ref.v), fabs(v1 - (double)ref.v)) / (eps * (double)ref.m + 1e-300));
@@ -77,7 +77,9 @@ std::string check_point(const Ctx& c, Chooser& ch, Stats* st, const std::vector<
   if (nd <= 7) {
     std::vector<double> g(nd + 1, -12345.0);
     scribble_stack(0xff);
-    c.t.template ndsplineeval_gradient<Float>(x.data(), cen.data(), g.data());
+    bool via_evaluator = ch.coin(1, 2);   // the optimised evaluator object must deliver the same true partials
+    if (via_evaluator) { auto ev = c.t.template get_evaluator<Float>(); ev.ndsplineeval_gradient(x.data(), cen.data(), g.data()); if (st) st->label("gradient_via_evaluator"); }
+    else c.t.template ndsplineeval_gradient<Float>(x.data(), cen.data(), g.data());
     double plain = c.t.template ndsplineeval<Float>(x.data(), cen.data(), 0);
     if (!same_bits(g[0], plain) && !(std::isnan(g[0]) && std::isnan(plain))) { m << "gradient lane 0 " << jnum(g[0]) << " is not the plain value " << jnum(plain); return m.str(); }
     for (size_t l = 0; l <= nd; l++) {
@@ -147,7 +149,15 @@ CaseResult body(Chooser& ch, Stats* st) {
   bool strict = ch.coin(1, 2);
   so.ko.strictly_increasing = strict;
   TableSpec s; std::unique_ptr<Table> t; std::string producer;
-  std::string err = produce_table(ch, so, s, t, producer);
+  std::string err;
+  if (ch.coin(1, 16)) {  // the mixed-order patterns that have their own specialised routines
+    static const unsigned pats[2][6] = {{2, 2, 2, 3, 2, 2}, {2, 2, 2, 5, 2, 2}};
+    int w = (int)ch.draw(0, 1); KnotOpts ko; ko.extra_max = 1; ko.strictly_increasing = strict;
+    for (int d = 0; d < 6; d++) { DimSpec ds; ds.order = pats[w][d]; ds.knots = gen_knots(ch, ds.order, ko); ds.ext_lo = ds.knots[ds.order]; ds.ext_hi = ds.knots[ds.knots.size() - ds.order - 1]; s.dims.push_back(ds); }
+    gen_coeffs(ch, s); producer = "P1_read"; t.reset(new Table());
+    { QuietStderr q; try { build_p1(*t, s); } catch (std::exception& e) { err = e.what(); } }
+    if (st) st->label("orders:known_mixed_pattern");
+  } else err = produce_table(ch, so, s, t, producer);
   std::ostringstream js;
   js << "{\"producer\":" << jstr(producer) << ",\"spec\":" << s.json(8);
   if (!err.empty()) { r.fail = err; r.json = js.str() + "}"; return r; }
